@@ -258,7 +258,14 @@ where
                 Ok(M::bind(|| out))
             } else {
                 let err_span = inp.span_since(&before);
-                inp.add_alt([DefaultExpected::SomethingElse], None, err_span);
+                // Report the first token of the rejected input as the token that was found
+                // SAFETY: `before` was generated by this input
+                let found = unsafe { I::next_maybe(inp.cache, &mut before.inner.clone()) };
+                inp.add_alt(
+                    [DefaultExpected::SomethingElse],
+                    found.map(|f| f.into()),
+                    err_span,
+                );
                 Err(())
             }
         })
